@@ -124,6 +124,11 @@ func NewSim(rng *rand.Rand, mode string) *Sim {
 		r := s.W.NewRecipeKind(kind, 0, t0)
 		gtx.SiafundOutputs = append(gtx.SiafundOutputs, types.SiafundOutput{Address: r.Addr, Value: v})
 	}
+	// the developer-address override (HardforkDevAddr): siafunds held by OldAddress may, from the hardfork height on,
+	// also be spent by revealing the unlock conditions of NewAddress — here conditions with a timelock a few blocks ahead
+	devNew := s.W.NewRecipeKind("uclock", 6+uint64(rng.Intn(6)), t0)
+	s.Net.HardforkDevAddr.OldAddress = gtx.SiafundOutputs[0].Address
+	s.Net.HardforkDevAddr.NewAddress = devNew.Addr
 	s.Genesis = types.Block{Timestamp: t0, Transactions: []types.Transaction{gtx}}
 	if s.Net.HardforkV2.RequireHeight == 0 {
 		// a v2-only network needs a v2 genesis
@@ -450,6 +455,13 @@ func (s *Sim) v1Siafund(ctx *blockCtx) (types.Transaction, consensus.V1Transacti
 	var ts consensus.V1TransactionSupplement
 	for _, e := range sortedSF(s.St.SF) {
 		r := s.recipeFor(e.SiafundOutput.Address)
+		if e.SiafundOutput.Address == s.Net.HardforkDevAddr.OldAddress && s.ChildHeight() >= s.Net.HardforkDevAddr.Height && s.Rng.Intn(2) == 0 {
+			// developer-address override: reveal NewAddress's conditions instead
+			if nr := s.recipeFor(s.Net.HardforkDevAddr.NewAddress); nr != nil && s.spendable(nr, false, ctx.ts) {
+				r = nr
+				s.Counts["v1:siafund-devaddr-override"]++
+			}
+		}
 		if ctx.used[types.Hash256(e.ID)] || !s.spendable(r, false, ctx.ts) {
 			continue
 		}
